@@ -227,4 +227,20 @@ CHECKS = {
              "shards": {"quick": 4, "thorough": 16}, "timeout": {"quick": 600, "thorough": 7200}},
         ],
     },
+    "C11": {
+        "rule": ("four generated real-time scenarios on the proxy handler loaded as a Caddy module, against loopback listeners the harness opens and closes (a closed port refuses at once): "
+                 "(1) passive window: fail_duration 200-800 ms, max_fails 1-3, histories of 3-14 connects/sleeps; the outcome of each connect and the failure counter are compared "
+                 "with a model of remembered failure times, only at instants >= 80 ms from a window edge; counters at rest; (2) retry window: try_duration 0-1 s, try_interval "
+                 "50-250 ms, upstream stays down or comes back inside the window: duration bounds, last error, attempts spaced; (3) active checks: interval 50-100 ms, listener "
+                 "toggled 2-6 times, health flag follows within 3 intervals + 150 ms; (4) connection limits 1-3 via max_connections or unhealthy_connection_count: histories of "
+                 "opens and releases of held proxied connections, which upstream accepted each. Non-trivial = a failure that expires or reaches max_fails, a non-zero try_duration, "
+                 "any active/limit history; distinct = distinct (settings, history)."),
+        "assumptions": ["peer counters are read through an overlay export shim; failure times are taken as the midpoint of the failing call (the 80 ms guard band covers the uncertainty)",
+                        "upper time bounds use slack >= 1 s"],
+        "min_classes": {"quick": {"C11/passive-window": 15, "C11/retry-window": 15, "C11/active-checks": 15, "C11/connection-limit": 15, "C11/reload-or-active-recovery": 10}},
+        "runs": [
+            {"name": "health", "pkg": "./c11", "run": ".", "rapid_checks": {"quick": 5, "thorough": 180},
+             "shards": {"quick": 6, "thorough": 16}, "timeout": {"quick": 600, "thorough": 7200}},
+        ],
+    },
 }
